@@ -222,15 +222,17 @@ def _trace_tokens(lean_line_text):
     return int(parts[1]), parts[2]
 
 
-def lines_for(case, obs, lean_line_text, lean_line_processed, spell_type, svc_name):
+def lines_for(case, obs, lean_line_text, lean_line_processed, spell_type, svc_name, processed_trace=False):
     """[(command, key, line)] for one run (hosts that registered something, every model browser on a never-closed host).
-    `lean_line_processed`: the trace without the deliveries the receiving listener did not parse (`obs["ignored"]`: verbatim repeats
-    dropped by the duplicate-packet guard) -- the browser / cache models speak about what the host PROCESSED"""
+    Every line carries the FULL link trace (wp-C07K4, d703d5c: `Learned` places a delivery on the pointer block of the datagram
+    the listener did parse up to 999 ms earlier; the cache line lists `D` events for parsed datagrams only).  processed_trace: give the
+    browser / cache lines the trace without the deliveries the listener did not parse (`obs["ignored"]`) instead -- the first
+    version of this report, kept for comparison"""
     proj = obs.get("proj")
     if not proj:
         return []
     endT, trace_toks = _trace_tokens(lean_line_text)
-    _, trace_proc = _trace_tokens(lean_line_processed)
+    _, trace_proc = _trace_tokens(lean_line_processed if processed_trace else lean_line_text)
     ign = {x[0] for x in obs.get("ignored", [])}
     closed = {e[2] for e in obs["trace"] if e[1] == "close"}
     ups = {e[2]: e[0] for e in obs["trace"] if e[1] == "up"}
